@@ -1018,7 +1018,7 @@ func (u *Unit) applyContract(ev *Ev, c *Contract, sig *types.Signature, recv *Va
 			sev.binds[c.ResultNames[i]] = rv
 		}
 	}
-	if len(res) == 1 {
+	if len(res) == 1 && !hasParamNamed(sig, "result") {
 		sev.binds["result"] = res[0]
 	}
 	if len(lateMods) > 0 {
@@ -1732,6 +1732,19 @@ func (u *Unit) isOwnParam(v Value, name string) bool {
 			if ev, ok := u.entry.env[p]; ok && ev.K == vScalar && ev.T == v.T {
 				return true
 			}
+		}
+	}
+	return false
+}
+
+// hasParamNamed: the pseudo-variable `result` must not shadow a real parameter of that name (use r0 / a results clause there).
+func hasParamNamed(sig *types.Signature, name string) bool {
+	if sig == nil {
+		return false
+	}
+	for i := 0; i < sig.Params().Len(); i++ {
+		if sig.Params().At(i).Name() == name {
+			return true
 		}
 	}
 	return false
